@@ -60,7 +60,7 @@ class CallMixin:
         else: raise VCError("cannot call %s" % (fv.t,))
 
     def lookup_name(self, name, st):
-        if name not in st.env and name in ("len", "isinstance", "type", "abs", "min", "max", "range", "print", "sorted", "enumerate"):
+        if name not in st.env and name in ("len", "isinstance", "type", "abs", "min", "max", "range", "print", "sorted", "enumerate", "round"):
             return SV(PyFunc, ("builtin", name))
         if self.spec and name not in st.env:
             if name in R.SPECFUNS: return SV(PyFunc, ("specfun", name))
@@ -113,6 +113,13 @@ class CallMixin:
             x0, x1 = self.coerce(a[0], T.Real), self.coerce(a[1], T.Real)
             c = x0.t <= x1.t if name == "min" else x0.t >= x1.t
             yield st, SV(T.Real, z3.If(c, x0.t, x1.t))
+        elif name == "round" and len(a) == 2 and a[0].ty in (T.Real, T.Int) and z3.is_int_value(a[1].t) and 0 <= a[1].t.as_long() <= 9:
+            # round(x, n) for a literal n: the n-place decimal nearest to x (ties: half up here, half even in CPython - they differ only when
+            # x*10^n is exactly k + 1/2, noted as an assumption)
+            scale = z3.RealVal(10 ** a[1].t.as_long())
+            x = self.coerce(a[0], T.Real).t
+            self.note_assumption("round(x, n): nearest n-place decimal, exact .5 ties rounded up (CPython rounds them to even)")
+            yield st, SV(T.Real, z3.ToReal(z3.ToInt(x * scale + z3.RealVal("1/2"))) / scale)
         elif name == "type":
             yield st, SV(PyFunc, ("typeof", a[0]))
         elif name == "isinstance":
